@@ -61,6 +61,9 @@ Definition raw_ref (id : Z) (b : list Z) (ranges : list (Z * Z)) : cref :=
 (** * Cases *)
 Record case := mkCase {
   c_tbl : hash_table;
+  c_start : Z;                              (* the TPM object of the boot: 0 NewTPM(); the object of earlier
+                                               boots recycled with 1 Reset(), 2 DoNotUse_ResetNoInit(),
+                                               3 DoNotUse_ResetNoInit() + SupportedAlgos restored *)
   c_flow : list (list (item cref));
   c_pcrs : list (list (list Z));            (* TPM.PCRValues *)
   c_cmdlog : list cmd;                      (* TPM.CommandLog.Commands() *)
@@ -118,9 +121,15 @@ Definition meas_obs (H : Z -> list Z -> list Z) (d : mdata cref) : Z * Z :=
   | _ => (-1, 0)
   end.
 
+Definition reuse_of (k : Z) : reuse :=
+  if k =? 1 then RReset else if k =? 2 then RResetNoInit else if k =? 3 then RResetNoInitAlgos else RNew.
+
+(** The earlier boots of the object are not part of the case: the model claims
+    that they do not matter ([recycle_start]), and the harness runs real earlier
+    boots on the real object. *)
 Definition check (c : case) : bool :=
   let H := H_tbl (c_tbl c) in
-  let '(s, rss) := run_flow cref cbytes H sim0 (c_flow c) in
+  let '(s, rss) := run_flow cref cbytes H (boot_start (reuse_of (c_start c))) (c_flow c) in
   let t := s_tpm s in
   let log := to_parsed (evlog t) in
   let '(ta, ra) := commands_apply H fresh (cmdlog t) in
